@@ -81,3 +81,83 @@ def lin(t: Term, subst=None) -> Optional[Lin]:
     if t[0] == "call" and call_is(t, "int") and len(t[2]) == 1:
         return lin(t[2][0], subst)
     return Lin(0, {t: 1})
+
+
+def from_lin(l: Lin) -> Term:
+    """A canonical term for an affine form (symbols in a fixed order, constant last)."""
+    parts = []
+    for s, v in sorted(l.t.items(), key=lambda kv: repr(kv[0])):
+        if v == 1:
+            parts.append(s)
+        elif v.denominator == 1:
+            parts.append(("bin", "*", ("const", int(v)), s))
+        else:
+            return None
+    if l.c.denominator != 1:
+        return None
+    acc = None
+    for p in parts:
+        acc = p if acc is None else ("bin", "+", acc, p)
+    if acc is None:
+        return ("const", int(l.c))
+    if l.c != 0:
+        acc = ("bin", "+", acc, ("const", int(l.c)))
+    return acc
+
+
+def offset_canon(t, B: Term, is_offset, used=None):
+    """Rewrite offset arithmetic on buffer B into operations on the view B[s:] (s: a term satisfying is_offset, 0 <= s <= len(B)
+    is the caller's obligation):   B[s+a:s+b] -> B[s:][a:b]     B[s+a] -> B[s:][a]     len(B) - s -> len(B[s:])
+    `used` (a list) receives one entry per rewrite."""
+    if not isinstance(t, tuple):
+        return t
+    t = tuple(offset_canon(x, B, is_offset, used) for x in t)
+    if not t or not isinstance(t[0], str):
+        return t
+
+    def split(x):
+        """x = s + rest with s an offset symbol of coefficient 1 -> (s, rest Lin)"""
+        if x is None:
+            return None
+        l = lin(x)
+        for sym, v in l.t.items():
+            if v == 1 and is_offset(sym):
+                return sym, l - Lin(0, {sym: 1})
+        return None
+    if t[0] == "slice" and strip(t[1]) == B and t[4] is None and (t[2] is not None or t[3] is not None):
+        lo = split(t[2]) if t[2] is not None else None
+        hi = split(t[3]) if t[3] is not None else None
+        s = (lo or hi or (None,))[0]
+        if s is not None and (t[2] is None) == (lo is None) and (t[3] is None or (hi is not None and hi[0] == s)) and (lo is None or lo[0] == s) and t[2] is not None:
+            lo_t = from_lin(lo[1])
+            hi_t = from_lin(hi[1]) if hi is not None else None
+            if lo_t is not None and (hi is None or hi_t is not None):
+                view = ("slice", t[1], s, None, None)
+                if lo_t == ("const", 0):
+                    lo_t = None
+                out = view if (lo_t is None and hi_t is None) else ("slice", view, lo_t, hi_t, None)
+                if used is not None and out != t:
+                    used.append(t)
+                return out
+    if t[0] == "sub" and strip(t[1]) == B:
+        ix = split(t[2])
+        if ix is not None:
+            it = from_lin(ix[1])
+            if it is not None:
+                if used is not None:
+                    used.append(t)
+                return ("sub", ("slice", t[1], ix[0], None, None), it)
+    if t[0] == "bin" and t[1] in ("-", "+"):
+        l = lin(t)
+        lens = [k for k, v in l.t.items() if call_is(k, "len") and strip(k[2][0]) == B]
+        for k in lens:
+            for sym, v in list(l.t.items()):
+                if is_offset(sym) and v == -l.t[k]:
+                    c = l.t[k]
+                    l2 = l - Lin(0, {k: c, sym: -c}) + Lin(0, {("call", ("ext", "len"), (("slice", k[2][0], sym, None, None),), ()): c})
+                    out = from_lin(l2)
+                    if out is not None:
+                        if used is not None:
+                            used.append(t)
+                        return out
+    return t
